@@ -395,7 +395,21 @@ func childBackend(b core.Batch, p params, o *core.Obs) {
 			big := r.Chance(1, 6)
 			fault := ""
 			if r.Chance(1, 6) {
-				fault = r.PickS([]string{"missing-dir", "readonly-dir"})
+				fault = r.PickS([]string{"missing-dir", "readonly-dir", "dir-removed-later"})
+			}
+			if i%16 == 5 {
+				fault = "dir-removed-later"
+			}
+			if fault == "dir-removed-later" {
+				// the destination works at first; after three events have been flushed the directory that holds the
+				// log file goes away and stays away (a volume unmounted, a log directory cleaned up)
+				writers = 1
+				if nev < 8 {
+					nev = 8
+				}
+				if nev > 100 {
+					nev = 100
+				}
 			}
 			// events that cannot be serialised (a NaN value) are sent in between: the channel may drop them, the
 			// events around them it has accepted like any other
@@ -404,6 +418,9 @@ func childBackend(b core.Batch, p params, o *core.Obs) {
 			switch fault {
 			case "missing-dir":
 				path = filepath.Join(dir, "no-such-dir", "events.log")
+			case "dir-removed-later":
+				os.MkdirAll(filepath.Join(dir, "logs"), 0755)
+				path = filepath.Join(dir, "logs", "events.log")
 			case "readonly-dir":
 				ro := filepath.Join(dir, "ro")
 				os.MkdirAll(ro, 0555)
@@ -432,6 +449,10 @@ func childBackend(b core.Batch, p params, o *core.Obs) {
 				go func(wi int) {
 					defer swg.Done()
 					for s := wi; s < nev; s += writers {
+						if fault == "dir-removed-later" && s == 3 {
+							time.Sleep(1500 * time.Millisecond)
+							os.RemoveAll(filepath.Join(dir, "logs"))
+						}
 						size := r0size(b.Seed, p.First*100000+i, s, big)
 						done := make(chan struct{})
 						go func() {
